@@ -229,6 +229,20 @@ CHECKS = {
         "Trusts the origin servers' request parser and the flow model in the check; TLS and real proxies are not simulated.",
         "5/C17",
     ),
+    "C20": (
+        "exploration",
+        "fault enumeration: every subset (bounded size) of failing lifecycle steps over a grid of application shapes (contexts, "
+        "receivers, flat and nested sub-applications) through both entry points, judged by a stack model over an event log; "
+        "plus Hypothesis-generated shutdown placements (connection phases x shutdown instant x late requests) against a real "
+        "AppRunner server on in-memory transports under virtual time",
+        "For every fault subset explored the teardown of a context ran exactly once iff its setup completed, in reverse order "
+        "per application, through AppRunner and _run_app; for every shutdown placement idle connections close at once, "
+        "handlers that finish within the timeout complete with their response delivered, all handlers end by twice the "
+        "timeout, late requests reach no handler, and all transports are closed when cleanup() returns.",
+        "Real sockets, POSIX signals and run_app's loop management are replaced (no-op site, cancellation of _run_app); "
+        "cross-application teardown order is only recorded.",
+        "5/C20",
+    ),
 }
 
 REASON_PENDING = "check not built yet in this round (design in DESIGN.md section 5); not claimed until it runs quietly on the unchanged tree"
